@@ -21,6 +21,9 @@ THEOREMS = [
     "BeyondVerif.C13.covRead_matches_writers",
     "BeyondVerif.C13.oemCovRows_match_writers",
     "BeyondVerif.C13.frames_roundtrip",
+    "BeyondVerif.C13.frameTable_facts",
+    "BeyondVerif.C13.frameOut_ok",
+    "BeyondVerif.C13.opmSsb_wf",
     "BeyondVerif.C13.cov_frame_alias_roundtrip",
     "BeyondVerif.C13.man_frame_alias_roundtrip",
     "BeyondVerif.C13.written_units_known",
@@ -104,7 +107,7 @@ THEOREMS = [
     "BeyondVerif.C13W.tdm_two_paths_reload_as_list",
 ]
 LEVEL_TEXT = ("Lean theorems over a structural model of beyond/io/ccsds (element trees, tokenised KVN lines, xml2dict / kvn2dict, the OEM / TDM line state "
-              "machines, the eight readers/writers). load_dump_id is proved for WHOLE messages of all four types in BOTH encodings, universally quantified, by "
+              "machines, the eight readers/writers; frames: the regenerated registry of the ten Earth-centred frames and of the frames centred on solar-system / JPL bodies and Lagrange points). load_dump_id is proved for WHOLE messages of all four types in BOTH encodings, universally quantified, by "
               "induction over the lists of segments / points / covariance blocks / maneuvers / observations / user-defined fields: opm_xml_load_dump_id, "
               "opm_kvn_load_dump_id (kvn2dict groups the MAN_ lines into one dict per maneuver, comment attached), omm_xml_load_dump_id, omm_kvn_load_dump_id, "
               "oem_xml_load_dump_id, oem_kvn_load_dump_id (each covariance block attached to the point of the same epoch, any number of segments), "
@@ -120,7 +123,7 @@ LEVEL_TEXT = ("Lean theorems over a structural model of beyond/io/ccsds (element
               "frames, covariance and maneuver frame aliases, written units, which groups each reader wraps, the date attribute printed as MAN_EPOCH_IGNITION, the "
               "readers' date_pos, whether the writers convert time scales / forms / Keplerian maneuvers. Exact differential correspondence (message tokens at "
               "written precision, error kinds, clock readings) of the compiled model with the real dumps/loads for all four types x both encodings x re-dump.")
-LEVEL_NOTE = ("whole-message theorems hold for well-formed objects: non-empty texts, one of the ten Earth-centred frames, covariance / maneuver frames own, QSW or TNW, "
+LEVEL_NOTE = ("whole-message theorems hold for well-formed objects: non-empty texts, a registered frame (the ten Earth-centred ones and every frame centred on a solar-system body, a body of the JPL test kernels or a Lagrange point: regenerated table; an OMM: Earth-centred), covariance / maneuver frames own, QSW or TNW, "
               "distinct epochs inside an ephemeris, at most nine participants per path, one time scale per message in the structural model (other labels: Model/CcsdsExt.lean); two clauses are false of the current code and "
               "kept as a `_partial` theorem / kernel-checked counter-witness (open findings: multi-path TDM reloads as a list dumps refuses; "
               "Keplerian maneuvers not written); float formatting/parsing, Date arithmetic, lxml and the splitting of KVN text into tokens are parameters of the "
@@ -150,9 +153,9 @@ ASSUMPTIONS = [
 ]
 NOT_COVERED = [
     "covariance / maneuver frames given as the NAME of an inertial frame (the orbit's own or another one): generated, checked by the oracle and the exact correspondence, but outside the well-formedness predicates of the whole-message theorems (own, QSW, TNW)",
-    "the structural model is Earth-centred: frames centred elsewhere (solar-system bodies, JPL bodies, Lagrange points) are generated for OPM and OEM, checked by the oracle, "
-    "and their CENTER_NAME writer/reader pair is modelled as string functions (center_name_roundtrip over the regenerated list of centre names, ext center correspondence), "
-    "but the whole-message theorems quantify over the ten Earth-centred frames; the JPL frame named `Earth` (EME2000 under another name, read back as EME2000) is left out; "
+    "the frame registry is dynamic: the regenerated frame table holds the ten Earth-centred frames and the frames the harness creates around other centres (beyond.env.solarsystem, beyond.env.jpl on the library's test kernels, "
+    "beyond.frames.lagrange for seven body pairs); another kernel or another Lagrange pair gives other names (the string theorem center_name_roundtrip is checked on the regenerated list only); a frame whose name differs from its centre's "
+    "(the JPL frame `Earth` = EME2000 under another name; a Lagrange frame given a custom name) is read back as the frame named after the centre and is left out; where two sources create a frame of the same name (Moon, Sun) the table keeps one REF_FRAME text; "
     "Keplerian and other mu-dependent forms do not exist at a Lagrange point (no body); OMM ephemeris type / classification (XML writes constants 0 / U), continuous maneuvers shorter than 0.5 ms (reload as impulsive), measures without a path (PVT: X, Y, ... are silently not written)",
     "string-level corner cases: texts containing '=', '[', 'COMMENT', leading/trailing blanks or that are empty/whitespace-only",
     "reader-only notations (default units, RTN, day-of-year dates, dates without fraction, comment lines, acceleration columns, theory SGP4, missing EPHEMERIS_TYPE / CLASSIFICATION_TYPE, centre in lower case) are checked by the oracle "
@@ -161,7 +164,7 @@ NOT_COVERED = [
     "clauses false of the current code (open findings, proposed fixes not applied): C13-tdm-multi-path-reloads-as-list; C13-opm-keplerian-maneuver",
 ]
 OPEN = [
-    "generalise CovWf / OpmWf to frame tags that are names of other inertial frames (alias tables are the identity on them)",
+    "generalise CovWf / OpmWf to covariance / maneuver frame tags that are names of other inertial frames (alias tables are the identity on them)",
     "tdm_redump_total for several paths (false of the current code: open finding C13-tdm-multi-path-reloads-as-list)",
     "a string-level model of the KVN tokenisation (`key = value [unit]`, COMMENT lines) instead of tokenised lines (the USER_DEFINED_ prefix is modelled separately: ud_key_roundtrip)",
 ]
@@ -169,7 +172,7 @@ RULE = ("correspondence: objects generated from one PRNG (OPM: 10 frames x 6 sca
         "name/id as attributes, keyword arguments or absent, originator, kep on/off, covariance absent/own/own by name/QSW/TNW/other inertial frame, 0-3 maneuvers ImpulsiveMan / ContinuousMan (dv or accel; date_pos start/median/stop, any case) "
         "in None/QSW/TNW (any case)/own frame by name/other inertial frame with comment absent/empty/one word/several words, user-defined fields absent/empty/1/2-4 with underscores, digits, lower case, CCSDS keywords, one a prefix of another; "
         "OMM: via Tle or direct, classification / ephemeris type, covariance, user-defined; OEM: 1-3 segments of 1-12 points with 0..n covariances, linear/lagrange, orders, name absent; TDM: 1-2 paths of 2-4 hops with 2-3 participants, 1-10 epochs, "
-        "Range/Azimut/Elevation(/Doppler), built by append or from a list), restricted to one time scale / cartesian points / non-Keplerian maneuvers for the structural model, format by fmt= (4/5) or configuration (1/5); per object 2 round trips + 4 re-dumps; "
+        "Range/Azimut/Elevation(/Doppler), built by append or from a list), restricted to one time scale / cartesian points / non-Keplerian maneuvers for the structural model (frames centred elsewhere than on the Earth included), format by fmt= (4/5) or configuration (1/5); per object 2 round trips + 4 re-dumps; "
         "plus the ext operations: thrust window (date_pos x duration x date), stamp (site x TIME_SYSTEM x scale), form (fmt x form), kepl (kind), udkey (name), center (every centre x fmt); a case is one request line, distinct = distinct line. "
         "oracle: the same generators (plus Keplerian maneuvers, non-cartesian OEM points, dates labelled in another scale, and for OPM / OEM with probability 0.12 a frame centred on a solar-system body, "
         "a body of the JPL test kernels or a Lagrange point) and the fixed witness objects; loads(dumps(x)) compared with the ORIGINAL object field by field with the property's tolerances "
@@ -1500,12 +1503,24 @@ def read_tables():
     if len(wp) != 1 or len(rp) != 1 or len(rs) != 1:
         raise RuntimeError(f"cannot read how the KVN readers/writers spell user-defined keys: writers {sorted(wp)}, readers startswith {sorted(rp)}, slice {sorted(rs)}")
     t["udWritePrefix"], t["udReadPrefix"], t["udReadSkip"] = wp.pop(), rp.pop(), rs.pop()
-    # frames (live objects, through the writers' own expressions)
+    # frames (live objects): name, CENTER_NAME and REF_FRAME as the KVN writer prints them — the ten Earth-centred frames and every frame
+    # centred elsewhere that the library can create (solar-system bodies, bodies of the JPL test kernels, Lagrange points)
     from beyond.frames import get_frame
+    from beyond.io.ccsds import dumps as _dumps
+    from beyond.orbits import StateVector as _SV
     ft = []
-    for f in FRAMES:
-        fr = get_frame(f)
-        ft.append((fr.name, fr.center.name.upper(), fr.orientation.name.upper()))
+    frs = [get_frame(f) for f in FRAMES] + [centre_frame(c) for _, c in sorted(centres().items())]
+    seen = set()
+    for fr in frs:
+        if fr.name in seen:
+            continue
+        seen.add(fr.name)
+        txt = _dumps(_SV([7.0e6, 1.0e5, -3.0e5, 10.0, 7500.0, 300.0], _date(7367 * 86400 * 10**6, "UTC"), "cartesian", fr), fmt="kvn", kep=False)
+        cn = re.search(r"^CENTER_NAME\s*=\s*(.*?)\s*$", txt, re.M).group(1)
+        rf = re.search(r"^REF_FRAME\s*=\s*(.*?)\s*$", txt, re.M).group(1)
+        if fr.name != fr.center.name and cn != "EARTH":
+            raise RuntimeError(f"frame {fr.name} is centred on {fr.center.name}: the readers rebuild the frame from the centre name")
+        ft.append((fr.name, cn, rf))
     t["frameTable"] = ft
     return t
 
@@ -1651,7 +1666,7 @@ def corr_case(out, spec, via, kind):
     t = spec["type"]
     obj, kw = build(spec)
     c0 = canon(obj, spec, kw)
-    kep = t == "opm" and spec["kep"] and spec["frame"] in KEP_FRAMES
+    kep = t == "opm" and spec["kep"] and obj.frame.orientation.name in KEP_FRAMES
     has_tle = t == "omm" and "tle" in obj._data
     toks = tdm_tokens_in(c0) if t == "tdm" else tokens(c0, kep=kep, has_tle=has_tle)
     lines, reals = [], []
@@ -1684,15 +1699,13 @@ def corr_case(out, spec, via, kind):
 
 
 def _model_domain(spec):
-    """the structural model has no Keplerian maneuvers, no form of the points, one time scale per message and the Earth as centre:
-    those four options go through the `ext` operations (kepl, form, stamp, center)"""
+    """the structural model has no Keplerian maneuvers, no form of the points and one time scale per message (frames centred elsewhere than on the Earth are in: regenerated frame table):
+    those three options go through the `ext` operations (kepl, form, stamp)"""
     if spec["type"] == "opm":
         spec["mans"] = [dict(m, scale=None) for m in spec["mans"] if m["kind"] in ("I", "C")]
-        spec["centre"] = None
     if spec["type"] == "oem":
         for s in spec["segs"]:
             s["form"] = "cartesian"
-            s["centre"] = None
             for p in s["points"]:
                 p["scale"] = None
     if spec["type"] == "tdm":
